@@ -2,13 +2,14 @@ D = "internal/"
 
 CHECK = dict(
     level="exploration",
-    level_text="Generated-input search over mutations of config.dist.yaml: every single-field mutation of an automatically extracted catalogue (bounded-exhaustive) plus rapid-drawn subsets of 1-4 fields and sibling threshold pairs, loaded by the package's own parseConfig and validate. Accepted configurations are checked against a hand-listed table of documented requirements, built with the builder's own methods and conversions and asked to serve IPv4 and IPv6 queries on every server; rejected ones must name a mutated property. Held on N cases is evidence, not proof.",
-    level_note="Start-up steps that need the outside world (backend gRPC, Consul, Redis, filter downloads, listening sockets) are cut at their first network access; the upstream is a loopback server.",
-    technique="property-based testing (rapid) + bounded-exhaustive single-field mutation of the distributed configuration, with a requirement table, constructor/handler exercise and an error-naming oracle",
+    level_text="Generated-input search over mutations of config.dist.yaml, loaded by the package's own parseConfig and validate. Bounded-exhaustive parts: every single-field mutation of an automatically extracted catalogue (349 places x boundary/zero/negative/huge/missing/wrong-enum/dangling-reference values), every (switch or enum, sibling) pair with all values, every pair of sibling integers over boundary values in both orders. Rapid part: subsets of 1-4 fields (biased to one), properties of one object together, threshold pairs. An accepted configuration is checked against a hand-listed table of documented requirements, built with the builder's own methods and conversions (rate limiter, connection limiter, caches, filters, GeoIP, TLS, server groups, handlers, unstarted listeners), checked for faithful conversion, and asked to serve an IPv4 and an IPv6 query on every server through the real handler chain and forwarder to a loopback upstream; a rejected one must name a mutated property. Held on N cases is evidence, not proof; the three enumerations are exhaustive only for the listed value sets.",
+    level_note="Start-up steps that need the outside world (backend gRPC, Consul, Redis, filter downloads, listening sockets, web service start) are cut at their first network access; listeners are constructed but not started, so the TCP pipeline and QUIC stream limits are checked as requirements on the values handed to the constructors, not by traffic. Sizes above 2^22 entries are not built (memory), no verdict is drawn from elapsed time.",
+    technique="property-based testing (rapid) + bounded-exhaustive mutation of the distributed configuration, with a requirement table, builder/handler exercise, conversion-fidelity and error-naming oracles",
     assumptions=[
         "yaml.v2, miekg/dns, prometheus client, the kernel's loopback networking and the interface name 'lo' are trusted",
-        "the distributed configuration is rebound to local files, a loopback upstream and single-address bind subnets; nothing else of it is changed",
-        "the requirement table is hand-listed from doc/configuration.md, config.dist.yaml and the documented requirements of the constructors",
+        "the distributed configuration is rebound to local files, a loopback upstream, the interface 'lo' and single-address bind subnets; nothing else of it is changed",
+        "the requirement table is hand-listed from doc/configuration.md, config.dist.yaml and the documented requirements of the constructors the values are handed to",
+        "constructors are deterministic: a start-up step whose whole input equals that of the distributed configuration (exercised completely once per process) is not repeated",
     ],
     units=[
         dict(name="cmd", dir=D + "cmd", src="C20/cmd", runs=[
